@@ -107,7 +107,9 @@ class C07(Check):
             "at most one prefix operator; token-level mutations (every proper prefix, every "
             "single-token deletion and duplication); importer instance histories: one long-lived "
             "ASTToPymbolic instance imports windows of 60 strings one after the other, every parse "
-            "tree dropped after use, against a fresh instance per string. Non-trivial = CPython accepts the string "
+            "tree dropped after use, against a fresh instance per string, with a user subclass overriding "
+            "map_Name run on each string in between (it must give the stock result under its own names "
+            "and leave the stock importer as it was). Non-trivial = CPython accepts the string "
             "(bracketing oracle applies); distinct = distinct strings.")
     assumptions = [
         "CPython's ast.parse is the reference for the shared grammar; strings it rejects only "
